@@ -6,6 +6,8 @@ import (
 	"go/types"
 	"strings"
 
+	"golang.org/x/tools/go/types/typeutil"
+
 	"utilverif/internal/core"
 )
 
@@ -25,11 +27,24 @@ func runGrefcount(c *Ctx) {
 		refcb    = "refcount.Ref.cb"
 		mtx      = "refcount.RefCount.mtx"
 	)
+	// the unexported helpers are found by what they do (their names may change):
+	//   resolve            calls the resolver field
+	//   startResolve       spawns resolve with go
+	//   shutdown           increments the generation counter
+	//   callRefCbs         unexported functions that call Ref.cb
+	//   removeRef          the RefCount method Ref.Release calls
+	an := refcountAnchors(c)
+	if an == nil {
+		return
+	}
+	isFn := func(ev *core.Event, d *core.FuncDecl) bool {
+		return d != nil && (ev.Kind == core.KCall || ev.Kind == core.KEnter) && ev.Callee != nil && ev.Callee.Origin() == d.Obj
+	}
 	pkgFollow := func(f *types.Func) bool {
-		return f.Pkg() != nil && RelPkg(f.Pkg().Path()) == "refcount" && f.Name() != "resolve"
+		return f.Pkg() != nil && RelPkg(f.Pkg().Path()) == "refcount" && f.Origin() != an.resolve.Obj
 	}
 	// --- resolve
-	if d := c.declByName("R7", "refcount", "RefCount", "resolve"); d != nil {
+	if d := an.resolve; d != nil {
 		name := core.FuncName(d.Obj)
 		gen := "?nonce"
 		if v := paramWhere(d, func(t types.Type) bool { return isBasic(t, types.IsInteger) }); v != nil {
@@ -109,7 +124,7 @@ func runGrefcount(c *Ctx) {
 				p    *core.Path
 			}
 			var rps []rp
-			c.Walk("R12", &core.Config{Follow: func(f *types.Func) bool { return pkgFollow(f) && f.Name() != "startResolveLocked" }}, core.Entry{Lit: l, Pkg: d.Pkg, Outer: d, Name: lname}, func(p *core.Path) {
+			c.Walk("R12", &core.Config{Follow: func(f *types.Func) bool { return pkgFollow(f) && f.Origin() != an.startResolve.Obj }}, core.Entry{Lit: l, Pkg: d.Pkg, Outer: d, Name: lname}, func(p *core.Path) {
 				g := prepare(c, p)
 				did := false
 				locked := false
@@ -117,7 +132,7 @@ func runGrefcount(c *Ctx) {
 					if ev.Kind == core.KAcquire && core.LockName(ev.Lock) == mtx {
 						locked = true
 					}
-					if callsFunc(ev, "refcount.(*RefCount).startResolveLocked") {
+					if isFn(ev, an.startResolve) {
 						did = true
 						a.requireGuard("R12", lname+"/restart", g, i, false, eq(gen, nonce), "re-resolving from released()")
 						a.note("R12", lname+"/restart/locked", ev.Pos, !holdsLock(ev, mtx), "released() restarts under mtx", "released() restarts without holding mtx", p)
@@ -145,8 +160,8 @@ func runGrefcount(c *Ctx) {
 			entries = append(entries, core.Entry{Decl: d})
 		}
 	}
-	if d := c.Prog.LookupFunc("refcount", "RefCount", "removeRef"); d != nil {
-		entries = append(entries, core.Entry{Decl: c.Prog.Decl(d)})
+	if an.removeRef != nil {
+		entries = append(entries, core.Entry{Decl: an.removeRef})
 	}
 	sortEntries(entries)
 	type sp struct {
@@ -166,29 +181,31 @@ func runGrefcount(c *Ctx) {
 				if incDecField(ev, nonce, token.INC) {
 					nonceInc = i
 				}
-				if callsFunc(ev, "refcount.(*RefCount).startResolveLocked") {
+				if isFn(ev, an.startResolve) {
 					didStart = true
 					// begins with shutdown
 					if ev.Kind == core.KEnter {
-						first := ""
+						var first *types.Func
 						for _, b := range p.Events[i+1:] {
 							if b.Kind == core.KEnter || b.Kind == core.KCall {
-								first = core.FuncName(b.Callee)
+								first = b.Callee
 								break
 							}
 							if b.Kind == core.KAssign || b.Kind == core.KGo {
 								break
 							}
 						}
-						a.note("R7", "refcount.(*RefCount).startResolveLocked/begins-with-shutdown", ev.Pos, first != "refcount.(*RefCount).shutdown",
+						a.note("R7", core.FuncName(an.startResolve.Obj)+"/begins-with-shutdown", ev.Pos, first == nil || an.shutdown == nil || first.Origin() != an.shutdown.Obj,
 							"startResolveLocked shuts the previous resolution down first", "startResolveLocked does not begin with shutdown(): the previous value is not released and its resolver not cancelled before a new one starts", p)
 					}
 				}
-				if callsFunc(ev, "refcount.(*RefCount).shutdown") {
+				if isFn(ev, an.shutdown) {
 					didShutdown = true
 				}
-				if callsFunc(ev, "refcount.(*RefCount).callRefCbsLocked") {
-					cbsIdx = i
+				for _, cbf := range an.callRefCbs {
+					if isFn(ev, cbf) {
+						cbsIdx = i
+					}
 				}
 				if callsField(ev, "refcount.RefCount.resolveCtxCancel") {
 					a.note("R7", "refcount/generation-bump-before-cancel", ev.Pos, !(nonceInc >= 0 && g.sec[nonceInc] == g.sec[i]),
@@ -203,7 +220,7 @@ func runGrefcount(c *Ctx) {
 							cleared = true
 						}
 					}
-					a.note("R7", "refcount.(*RefCount).clearResolvedState/release-then-forget", ev.Pos, !cleared,
+					a.note("R7", "refcount/value-release/release-then-forget", ev.Pos, !cleared,
 						"valueRel() is followed by valueRel = nil before the section ends", "valueRel() is not followed by valueRel = nil in the same section: the release function can run twice", p)
 					wasResolved, _ := implies(g.litsBefore(i, true), fnot(fld(resolved)))
 					_ = wasResolved
@@ -231,10 +248,10 @@ func runGrefcount(c *Ctx) {
 							}
 						}
 					}
-					a.note("R7", "refcount.(*RefCount).clearResolvedState/empty-target-before-release", ev.Pos, needEmpty && !emptied,
+					a.note("R7", "refcount/value-release/empty-target-before-release", ev.Pos, needEmpty && !emptied,
 						"when a target container holds the value it is emptied before the value is released",
 						"the value's release function runs on a path on which the target container was found set but was not emptied first: the container exposes a released value", p)
-					a.note("R7", "refcount.(*RefCount).clearResolvedState/notify-before-release", ev.Pos, sawResolved && !(cbsIdx >= 0 && cbsIdx < i),
+					a.note("R7", "refcount/value-release/notify-before-release", ev.Pos, sawResolved && !(cbsIdx >= 0 && cbsIdx < i),
 						"when a value was resolved, the reference callbacks are told it is gone before it is released",
 						"the value's release function runs before the reference callbacks were told the value is gone", p)
 				}
@@ -249,7 +266,7 @@ func runGrefcount(c *Ctx) {
 			if strings.HasSuffix(name, ".SetContext") {
 				setCtx = append(setCtx, sp{g.litsBefore(len(p.Events), false), didStart, p})
 			}
-			if strings.HasSuffix(name, ".removeRef") {
+			if e.Decl != nil && e.Decl == an.removeRef {
 				remRef = append(remRef, sp{g.litsBefore(len(p.Events), false), didShutdown, p})
 			}
 			if strings.HasSuffix(name, ".AddRef") {
@@ -309,11 +326,15 @@ func runGrefcount(c *Ctx) {
 	if shrank != "" {
 		lastGone = fand(atom(shrank), lastGone)
 	}
-	iff(remRef, "refcount.(*RefCount).removeRef/shutdown-iff-last", lastGone, "shutting down", token.NoPos)
+	a.topic = "last-ref"
+	iff(remRef, "refcount/last-reference/shutdown-iff-last", lastGone, "shutting down", token.NoPos)
+	a.expect("R12", "refcount/last-reference/shutdown-iff-last", 1, "paths of the function Ref.Release calls")
+	a.topic = ""
 	a.expect("R12", "refcount.(*RefCount).SetContext/restart-iff-changed", 1, "paths of SetContext")
-	a.expect("R12", "refcount.(*RefCount).removeRef/shutdown-iff-last", 1, "paths of removeRef")
 	a.expect("R6a", "refcount.(*RefCount).AddRef/call(Ref.cb)", 1, "the callback call in AddRef")
-	a.expect("R6a", "refcount.(*RefCount).callRefCbsLocked/call(Ref.cb)", 1, "the callback call in callRefCbsLocked")
+	for _, cbf := range an.callRefCbs {
+		a.expect("R6a", core.FuncName(cbf.Obj)+"/call(Ref.cb)", 1, "the callback call in the helper that tells all references")
+	}
 
 	// --- Ref.Release prologue
 	if d := c.declByName("R16", "refcount", "Ref", "Release"); d != nil {
@@ -324,13 +345,13 @@ func runGrefcount(c *Ctx) {
 				if ev.Kind == core.KCall && ev.Callee != nil && ev.Callee.Pkg() != nil && ev.Callee.Pkg().Path() == "sync/atomic" && (ev.Callee.Name() == "Swap" || ev.Callee.Name() == "CompareAndSwap") {
 					swapped = true
 				}
-				if (ev.Kind == core.KCall || ev.Kind == core.KEnter) && ev.Callee != nil && ev.Callee.Name() == "removeRef" {
+				if isFn(ev, an.removeRef) {
 					a.note("R16", name+"/test-and-set-prologue", ev.Pos, !swapped, "Release wins an atomic test-and-set before it removes the reference",
 						"Release removes the reference without an atomic test-and-set: a double release counts twice", p)
 				}
 			}
 		})
-		a.expect("R16", name+"/test-and-set-prologue", 1, "removeRef in Ref.Release")
+		a.expect("R16", name+"/test-and-set-prologue", 1, "the reference removal in Ref.Release")
 	}
 
 	// --- consumers: Wait / Resolve / ResolveWithReleased release only on error
@@ -340,16 +361,27 @@ func runGrefcount(c *Ctx) {
 			continue
 		}
 		name := core.FuncName(d.Obj)
-		c.Walk("R12", &core.Config{}, core.Entry{Decl: d}, func(p *core.Path) {
+		consumerFollow := func(f *types.Func) bool {
+			// unexported helpers only: the exported methods these wrap (AddRef, WaitWithReleased …) are judged on their own
+			return pkgFollow(f) && !f.Exported()
+		}
+		c.Walk("R12", &core.Config{Follow: consumerFollow}, core.Entry{Decl: d}, func(p *core.Path) {
 			g := prepare(c, p)
 			released := false
+			errRole := "?err"
 			for i, ev := range p.Events {
+				// the error of the await: the second result of the promise's Await call, wherever it is made
+				if ev.Kind == core.KAssign && ev.RhsIdx == 1 && ev.Rhs != nil {
+					if call, ok := unparen(ev.Rhs).(*ast.CallExpr); ok {
+						if _, isAwait := callSel(call, "Await"); isAwait {
+							if v := identVar(ev.Lhs, ev.Frame); v != nil && isErrorType(v.Type()) {
+								errRole = c.Role(v)
+							}
+						}
+					}
+				}
 				if (ev.Kind == core.KCall || ev.Kind == core.KEnter) && ev.Callee != nil && core.FuncName(ev.Callee) == "refcount.(*Ref).Release" {
 					released = true
-					errRole := "?err"
-					if v := localWhere(d, d.Decl, func(v *types.Var, _ *ast.Ident) bool { return isErrorType(v.Type()) }); v != nil {
-						errRole = c.Role(v)
-					}
 					a.requireGuard("R12", name+"/release-on-error-only", g, i, false, fnot(eq(errRole, "nil")), "releasing the reference")
 				}
 				if ev.Kind == core.KReturn && ev.Frame.Parent == nil && len(ev.Results) == 3 && isNilExpr(ev.Results[2], ev.Frame) {
@@ -359,7 +391,7 @@ func runGrefcount(c *Ctx) {
 		})
 	}
 	releasedOnlyViaOnce(c, a)
-	shutdownCancels(c, a, pkgFollow)
+	shutdownCancels(c, a, an.shutdown, pkgFollow)
 	// --- Access
 	if d := c.declByName("R12", "refcount", "RefCount", "Access"); d != nil {
 		name := core.FuncName(d.Obj)
@@ -553,8 +585,7 @@ func releasedOnlyViaOnce(c *Ctx, a *agg) {
 
 // shutdownCancels (C08/C09): every path through shutdown() cancels the resolve context and releases
 // the value, or shows the respective field nil.
-func shutdownCancels(c *Ctx, a *agg, follow func(*types.Func) bool) {
-	d := c.declByName("R4", "refcount", "RefCount", "shutdown")
+func shutdownCancels(c *Ctx, a *agg, d *core.FuncDecl, follow func(*types.Func) bool) {
 	if d == nil {
 		return
 	}
@@ -586,4 +617,92 @@ func shutdownCancels(c *Ctx, a *agg, follow func(*types.Func) bool) {
 			"a path through shutdown keeps a release function uncalled although the value is being dropped", p)
 	})
 	a.expect("R4", name+"/cancels-resolver", 1, "paths of shutdown")
+}
+
+type refcountAnchorSet struct {
+	resolve, startResolve, shutdown, removeRef *core.FuncDecl
+	callRefCbs                                 []*core.FuncDecl
+}
+
+// refcountAnchors finds the unexported helpers of refcount by structure.
+func refcountAnchors(c *Ctx) *refcountAnchorSet {
+	an := &refcountAnchorSet{}
+	fr := func(d *core.FuncDecl) *core.Frame { return &core.Frame{Pkg: d.Pkg} }
+	for _, d := range pkgDecls(c, "refcount") {
+		d := d
+		ast.Inspect(d.Decl.Body, func(n ast.Node) bool {
+			switch x := n.(type) {
+			case *ast.CallExpr:
+				if fv := fieldVar(x.Fun, fr(d)); fv != nil {
+					switch core.FieldName(fv) {
+					case "refcount.RefCount.resolver":
+						if an.resolve == nil {
+							an.resolve = d
+						}
+					case "refcount.Ref.cb":
+						if !d.Obj.Exported() {
+							dup := false
+							for _, o := range an.callRefCbs {
+								dup = dup || o == d
+							}
+							if !dup {
+								an.callRefCbs = append(an.callRefCbs, d)
+							}
+						}
+					}
+				}
+			case *ast.IncDecStmt:
+				if fv := fieldVar(x.X, fr(d)); fv != nil && core.FieldName(fv) == "refcount.RefCount.nonce" && x.Tok == token.INC && an.shutdown == nil {
+					an.shutdown = d
+				}
+			}
+			return true
+		})
+	}
+	if an.resolve != nil {
+		for _, d := range pkgDecls(c, "refcount") {
+			d := d
+			ast.Inspect(d.Decl.Body, func(n ast.Node) bool {
+				if g, ok := n.(*ast.GoStmt); ok {
+					if f, _ := typeutil.Callee(d.Pkg.TypesInfo, g.Call).(*types.Func); f != nil && f.Origin() == an.resolve.Obj && an.startResolve == nil {
+						an.startResolve = d
+					}
+				}
+				return true
+			})
+		}
+	}
+	if rel := c.Prog.LookupFunc("refcount", "Ref", "Release"); rel != nil {
+		if d := c.Prog.Decl(rel); d != nil {
+			ast.Inspect(d.Decl.Body, func(n ast.Node) bool {
+				if call, ok := n.(*ast.CallExpr); ok && an.removeRef == nil {
+					if f, _ := typeutil.Callee(d.Pkg.TypesInfo, call).(*types.Func); f != nil && f.Pkg() != nil && RelPkg(f.Pkg().Path()) == "refcount" {
+						if rn := core.RecvNamed(f); rn != nil && rn.Obj().Name() == "RefCount" {
+							an.removeRef = c.Prog.Decl(f.Origin())
+						}
+					}
+				}
+				return true
+			})
+		}
+	}
+	miss := func(what string) { c.MissingAnchor("R7", "refcount: "+what) }
+	if an.resolve == nil {
+		miss("the function that calls the resolver field")
+		return nil
+	}
+	if an.startResolve == nil {
+		miss("the function that spawns the resolver goroutine")
+		return nil
+	}
+	if an.shutdown == nil {
+		miss("the function that increments the generation counter")
+	}
+	if an.removeRef == nil {
+		miss("the RefCount method Ref.Release calls")
+	}
+	if len(an.callRefCbs) == 0 {
+		miss("the helper that calls the reference callbacks")
+	}
+	return an
 }
